@@ -425,6 +425,7 @@ impl<Q: QueueApi> State<Q> {
                         }
                     }
                 }
+                source_ok(&o, &m)?;
                 Q::q_from_other(o)
             }
         };
@@ -1480,8 +1481,18 @@ fn source_ok<Q: QueueApi>(q: &Q, m: &Model) -> R<()> {
         Kind::Dpq => s.order_minmax(),
     }
     .map_err(|d| mon.order(format!("auxiliary queue: {}", d)))?;
-    if Model::from_snap(&s).pairs() != m.pairs() {
-        return Err(mon.content(format!("auxiliary queue holds {:?} expected {:?}", Model::from_snap(&s).pairs(), m.pairs())));
+    let got = Model::from_snap(&s);
+    if got.pairs() != m.pairs() {
+        return Err(mon.content(format!("auxiliary queue holds {:?} expected {:?}", got.pairs(), m.pairs())));
+    }
+    for (id, e) in &m.m {
+        let g = got.m[id];
+        if g.payload != e.payload {
+            return Err(mon.payload(format!("auxiliary queue: stored item {} has payload {} expected {}", id, g.payload, e.payload)));
+        }
+        if g.tag != e.tag {
+            return Err(mon.tag(format!("auxiliary queue: stored priority object of id {} has tag {} expected {}", id, g.tag, e.tag)));
+        }
     }
     Ok(())
 }
